@@ -192,6 +192,14 @@ impl BlteFile {
 
     /// Compress data with automatic chunking
     pub fn compress(data: &[u8], chunk_size: usize, mode: CompressionMode) -> BlteResult<Self> {
+        if chunk_size == 0 && !data.is_empty() {
+            // The chunking loop below would never advance
+            return Err(BlteError::InvalidChunkSize {
+                size: 0,
+                min: 1,
+                max: usize::MAX,
+            });
+        }
         if data.len() <= chunk_size {
             // Single chunk
             Self::single_chunk(data.to_vec(), mode)
